@@ -112,46 +112,57 @@ prop(
     level="other",
     explanation=(
         "Decided per stage, because parsing a whole datagram of arbitrary bytes is not tractable (C07). "
-        "(1) Dispatcher: a 28-byte datagram with an INFO_REPLY submessage goes through the real parser "
-        "RtpsMessageRead::try_from and the real MessageReceiver::next - the pair DcpsDomainParticipant::handle_data runs on "
-        "every datagram - and reaches todo!() (KF-C06-1). The sibling obligation (multi-submessage datagrams without "
-        "INFO_REPLY: no panic, exactly the entity submessage yielded, interpreter state as carried) is written but did "
-        "NOT finish within 900 s (thorough tier, undecided). "
-        "(3) Fragment arithmetic: RtpsWriterProxy::push_data_frag + reconstruct_data_from_frag (total_fragments_expected) - "
-        "the two calls RtpsStatefulReader::on_data_frag_submessage makes for an accepted fragment - for one DATA_FRAG with "
-        "symbolic writerSN, fragmentStartingNum, fragmentsInSubmessage <= 1, fragmentSize >= 1, dataSize: no overflow, no "
-        "division by zero, a DATA is only reconstructed from a fragment starting at 1; SequenceNumberSet::set() on sets "
-        "decoded from arbitrary bytes (base <= i64::MAX - 256). "
-        "(4) Allocation bounds of the element readers are asserted under C07 (numbers of decoded locators / parameters / set "
-        "words bounded by the input length). "
-        "(2) Per-handler steps on a real participant (INFO_REPLY and GAP through DcpsDomainParticipant::handle_data with a "
-        "matched writer proxy on the built-in publications reader) exist as thorough-tier harnesses; they did not finish "
-        "within 900 s on the shared machine and are NOT part of the quick verdict. "
-        "Datagram-reachable defects recorded as known findings with __known/__rest splits: INFO_REPLY reaches todo!() "
-        "(KF-C06-1, decided); DATA_FRAG with fragmentSize 0 divides by zero (KF-C06-3, decided); SequenceNumberSet::set() "
-        "overflows for a base near i64::MAX (KF-C06-4, decided); NACK_FRAG numBits > 256 index out of bounds, "
-        "FragmentNumberSet base overflow, zero-length CDR string in discovery data (KF-C07-1..3, decided); the GAP handler "
-        "loops gapList.base - gapStart times, up to 2^63 (KF-C06-2: established by reading "
-        "communication_methods.rs:584, harness in the thorough tier, not yet decided by the solver)."),
-    bounds="datagrams of 28..60 bytes with concrete framing (submessage ids, flags, lengths) and symbolic values; writer proxy "
-           "in its initial state with one DATA_FRAG (2-byte payload); sets of <= 8 bits; unwind 3..30",
-    outside="arbitrary (not well-framed) datagram bytes through the whole parser (per-unit totality: C07); every handler of "
-            "DcpsDomainParticipant::handle_data on a real participant (GAP, HEARTBEAT, ACKNACK, NACK_FRAG, HEARTBEAT_FRAG, DATA, "
-            "DATA_FRAG with matched user readers / writers): the participant-level harnesses need > 900 s each on the shared "
-            "machine, the protocol steps of these handlers are the subject of C01/C05; sequences of datagrams and pre-states "
-            "other than the initial one; liveness of the API afterwards (follows from no panic / termination in the single "
-            "worker; stated, not checked); discovery payload decoding and type-object assignability (execute the XTypes "
-            "deserializer / DynamicData, not tractable); locator-to-socket-address conversion (needs the std UDP transport "
-            "feature); total memory accounting",
-    level_text="Bounded symbolic execution of the real receive-path units for the stated datagram shapes; not a proof for "
-               "arbitrary datagrams and not a whole-participant result.",
+        "(1) Dispatcher: well-formed datagrams [INFO_REPLY, HEARTBEAT_FRAG], [INFO_TS, HEARTBEAT_FRAG] and [INFO_TS, INFO_SRC] "
+        "with symbolic field values go through the real parser RtpsMessageRead::try_from and the real MessageReceiver "
+        "until exhaustion - the pair DcpsDomainParticipant::handle_data runs on every datagram: no panic, exactly the "
+        "entity submessage is yielded (also after an INFO_REPLY), the interpreter state (source prefix, timestamp) is the "
+        "one the submessages carry. "
+        "(2) Per-handler steps on a real DcpsDomainParticipant built by its constructor: handle_data with "
+        "[INFO_REPLY, HEARTBEAT_FRAG] on a fresh participant (no panic, nothing sent); handle_data with a GAP from a "
+        "matched writer (writer proxy added to the built-in publications reader - a datagram that claims to come from a "
+        "discovered participant) with gapStart and gapList.base over the FULL i64 range: returns within the unwinding "
+        "bound, no panic, and the proxy's available_changes_max is base - 1 exactly when the range covers the next "
+        "expected sequence number. "
+        "(3) Number ranges and fragment arithmetic: SequenceNumberSet decoded from arbitrary bytes is rejected when its "
+        "last member would exceed i64::MAX and set() iterates accepted sets without overflow; DATA_FRAG with "
+        "fragmentSize 0 is rejected by the decoder; RtpsWriterProxy::push_data_frag + reconstruct_data_from_frag "
+        "(total_fragments_expected) - the two calls on_data_frag_submessage makes for an accepted fragment - for one "
+        "DATA_FRAG with symbolic writerSN, fragmentStartingNum, fragmentsInSubmessage <= 1, fragmentSize >= 1, dataSize: "
+        "no overflow, no division by zero. "
+        "(4) Allocation bounds of the element readers are asserted under C07. "
+        "These checks found seven datagram-reachable defects (INFO_REPLY reaching todo!(), GAP loop of up to 2^63 "
+        "iterations, DATA_FRAG fragmentSize 0 division by zero, SequenceNumberSet member overflow, NACK_FRAG numBits > 256 "
+        "index out of bounds, FragmentNumberSet base overflow, zero-length CDR string in discovery data); all are "
+        "repaired in /repo and the former trigger scenarios are now must-pass obligations - nothing is suppressed."),
+    bounds="datagrams of 52..60 bytes with concrete framing (submessage ids, flags, non-zero lengths) and symbolic values; "
+           "participant freshly constructed, at most one matched writer proxy in its initial state; one datagram per "
+           "obligation; sets of <= 8 bits for iteration; unwind 4..14 (participant harnesses: 4 plus the per-loop bounds below)",
+    outside="arbitrary (not well-framed) datagram bytes through the whole parser (per-unit totality: C07); the HEARTBEAT, "
+            "ACKNACK, NACK_FRAG, DATA and DATA_FRAG handlers on a participant with matched readers / writers (they build "
+            "reply messages in the heap container and walk change lists; their protocol steps are the subject of C01/C05); "
+            "sequences of datagrams and pre-states other than the initial one - in particular sequence numbers at i64::MAX "
+            "reached through earlier datagrams (available_changes_max() + 1); zero-length submessages and datagrams "
+            "longer than 60 bytes in the dispatcher obligations; liveness of the API afterwards (follows from no panic / "
+            "termination in the single worker; stated, not checked); discovery payload decoding and type-object "
+            "assignability (XTypes deserializer / DynamicData, not tractable); locator-to-socket-address conversion "
+            "(needs the std UDP transport feature); total memory accounting",
+    level_text="Bounded symbolic execution of the real receive path for the stated datagram shapes; termination is decided as "
+               "'no unwinding assertion fails'. Not a proof for arbitrary datagrams.",
     level_note="trusted: Kani/CBMC, the harness-side little-endian datagram writer (RTPS 2.x clause 9.4 offsets; that the real "
-               "encoder produces these layouts is C08)",
-    technique="Kani/CBMC proof harnesses on rtps_messages::overall_structure::RtpsMessageRead, rtps::message_receiver, rtps::writer_proxy (thorough: DcpsDomainParticipant::handle_data)",
+               "encoder produces these layouts is C08), critical-section stubs in the participant harnesses",
+    technique="Kani/CBMC proof harnesses on DcpsDomainParticipant::handle_data, rtps_messages::overall_structure::RtpsMessageRead, rtps::message_receiver, rtps::writer_proxy",
     assumptions=[
-        "NOT trigger KF-C06-3 / KF-C06-4 in the respective __rest obligations (the __rest sibling of KF-C06-1 is in the thorough tier, undecided)",
-        "thorough tier only: critical_section::acquire/release stubbed; RtpsWriterProxy::irrelevant_change_set replaced by a call counter in c06_gap_range_loop__known",
+        "critical_section::acquire/release stubbed in the participant harnesses (sequential schedules)",
+        "fragment_size != 0 in c06_data_frag_arithmetic (decoder invariant, asserted separately)",
     ],
     timeout={"quick": 900, "thorough": 1800},
     mem_gb=12,
+    cbmc_args=["--unwindset", "memcmp.0:17"],
+    unwind_patterns=[
+        (r"StatusMask as std::iter::FromIterator", 14),   # DcpsStatusCondition::default(): 13 status kinds
+        (r"overflowing_pow", 8),
+        (r"slice_contains|SliceContains", 8),
+        (r"c06_datagrams::put_header", 14),                # harness-side 12-byte prefix copy
+        (r"DcpsDomainParticipant::handle_", 7),              # handler loops over the 5 built-in stateful readers
+    ],
 )
